@@ -239,7 +239,31 @@ impl FromStr for ServiceAddr {
             "CS" => ServiceAddr::CONTROL,
             "DS" => ServiceAddr::DAEMON,
             "Wildcard" => ServiceAddr::WILDCARD,
-            _ => return Err(ERR),
+            _ => {
+                // Displayed form of a service address without a name: `<SVC:0x1234>`.
+                let hex = service
+                    .strip_prefix("<SVC:0x")
+                    .and_then(|rest| rest.strip_suffix('>'))
+                    .ok_or(ERR)?;
+                if hex.len() != 4
+                    || !hex
+                        .bytes()
+                        .all(|b| b.is_ascii_digit() || (b'a'..=b'f').contains(&b))
+                {
+                    return Err(ERR);
+                }
+                let address = ServiceAddr(u16::from_str_radix(hex, 16).map_err(|_| ERR)?);
+                // Multicast and named service addresses have their own spelling.
+                if address.is_multicast()
+                    || matches!(
+                        address,
+                        ServiceAddr::CONTROL | ServiceAddr::DAEMON | ServiceAddr::WILDCARD
+                    )
+                {
+                    return Err(ERR);
+                }
+                address
+            }
         };
 
         match suffix {
